@@ -894,6 +894,7 @@ func (c *FCtx) havocForCall(e *Env, st *State, fn *types.Func, call *ast.CallExp
 
 // havocCounters forgets the event and call counters a callee may advance.
 func (c *FCtx) havocCounters(st *State, eff *Effects) {
+	c.havocGhostWrites(st, eff)
 	var calls []string
 	for k := range eff.Locks {
 		if isCounterKey(k) {
@@ -907,6 +908,19 @@ func (c *FCtx) havocCounters(st *State, eff *Effects) {
 		}
 	}
 	c.clockAfterHavoc(st, calls)
+}
+
+// havocGhostWrites forgets the ghost globals the "at" clauses of anything reachable may assign.
+func (c *FCtx) havocGhostWrites(st *State, eff *Effects) {
+	for k := range eff.Writes {
+		if !strings.HasPrefix(k, "G$") {
+			continue
+		}
+		if gt, ok := c.W.Specs.GhostVars[strings.TrimPrefix(k, "G$")]; ok {
+			srt, _ := c.specSort(gt)
+			st.heap[k] = c.freshVar(k, SArr(SInt, srt))
+		}
+	}
 }
 
 // clockAfterHavoc: the listed call counters were forgotten; logical time moved forward and the forgotten times of
